@@ -20,7 +20,7 @@ package nut07
 //@   ensures @unknown [C20] state != "UNSPENT" && state != "PENDING" && state != "SPENT" ==> result == Unknown
 
 // what is marshalled for one proof state: Y and witness copied, the state as its NUT-07 string
-//@ struct tempProofState [C20] Y State Witness
+//@ struct nut07.tempProofState [C20] Y State Witness
 //@ func (*ProofState).MarshalJSON
 //@   tags C20 C15
 //@   safety C06 C20
